@@ -67,6 +67,13 @@ IllBinds == << [b |-> <<"    for x := range true\n">>, c |-> <<"    end\n">>], [
                [b |-> <<"    x := [][0][0]\n">>, c |-> <<>>], [b |-> <<"    x := ([])[0]\n">>, c |-> <<>>],
                [b |-> <<"    for x := range true\n", "        y := x\n", "        for z := range y\n", "            print z\n", "        end\n">>, c |-> <<"    end\n">>],
                [b |-> <<"    while nosuch\n", "        x := nosuch2\n">>, c |-> <<"    end\n">>],
+               [b |-> <<"    x := \"abc\"[:\"s\"]\n">>, c |-> <<>>], [b |-> <<"    x := [1 2][true:]\n">>, c |-> <<>>], [b |-> <<"    x := \"abc\"[[1]:2]\n">>, c |-> <<>>],
+               [b |-> <<"    w := read\n", "    x := \"abc\"[:w]\n">>, c |-> <<>>], [b |-> <<"    x := {a:1}[1:]\n">>, c |-> <<>>], [b |-> <<"    x := [1 2][\"k\"]\n">>, c |-> <<>>],
+               [b |-> <<"    x := {a:1}[0]\n">>, c |-> <<>>], [b |-> <<"    x := 5.(num)\n">>, c |-> <<>>], [b |-> <<"    x := [1].a\n">>, c |-> <<>>],
+               \* an ill-typed statement after many errors (whatever the parser does to limit its diagnostics)
+               [b |-> <<"    e1 := z1\n", "    e2 := z2\n", "    e3 := z3\n", "    e4 := z4\n", "    e5 := z5\n", "    e6 := z6\n", "    e7 := z7\n", "    e8 := z8\n",
+                        "    e9 := z9\n", "    e10 := z10\n", "    e11 := z11\n", "    e12 := z12\n", "    names := [\"a\"]\n", "    sc:[]any\n", "    sc = [1 2 3] + names[0]\n",
+                        "    sc = [1] + \"s\"\n", "    sc = -[1]\n", "    sc = [[1] + names]\n", "    x := [1 2] + names[0]\n">>, c |-> <<>>],
                [b |-> <<"    if [][0]\n", "        x := 1\n">>, c |-> <<"    end\n">>] >>
 IllProg(i, b) == <<"func g\n">> \o IllBinds[i].b \o Bodies[b] \o IllBinds[i].c \o <<"end\n", "g\n">>
 HdrKw == << "func ", "on ", "on key", "func f", "on down", "func f:num" >>
